@@ -183,8 +183,8 @@ def run(ctx):
         x = rng.random()
         if x < 0.2:
             kw["max_dist"] = rng.choice([0.5, 1.0, 2.0, 4.0, 9.0])
-        elif x < 0.3 and dtwmon.valid_ub_domain(kw, r, c):
-            kw["use_pruning"] = True
+        elif x < 0.3:
+            kw["use_pruning"] = True          # incl. settings under which the Euclidean distance is no upper bound
         if rng.random() < 0.1:
             kw = gen.numpy_typed(kw, rng, np)
             ctx.count("settings_given_as_numpy_scalars")
